@@ -13,6 +13,22 @@ use crate::sweep::hash_str;
 pub const CHUNK: usize = 256;
 pub const PANIC_WORD: u64 = 0xfa11_ed00_dead_beef;
 
+fn special(k: Kind, v: u64) -> bool {
+    match k {
+        Kind::Pat(f) => v == 0 || v == f.nar(),
+        Kind::F32(_) => {
+            let x = f32::from_bits(v as u32);
+            x == 0.0 || !x.is_finite()
+        }
+        Kind::F64(_) => {
+            let x = f64::from_bits(v);
+            x == 0.0 || !x.is_finite()
+        }
+        Kind::Int { .. } => v == 0,
+        Kind::Small(_) => false,
+    }
+}
+
 fn extremes(k: Kind) -> Vec<u64> {
     match k {
         Kind::Pat(f) => {
@@ -117,6 +133,7 @@ pub fn inputs_for(op: &Op, seed: u64, count: u64) -> Vec<[u64; 3]> {
 struct OpResult {
     name: String,
     n: u64,
+    distinct_nontrivial: u64,
     digests: Vec<u64>,
     panic_count: u64,
     panics: Vec<([u64; 3], String)>,
@@ -139,9 +156,18 @@ pub fn run(reg: &Registry, seed: u64, count: u64, threads: usize, out_path: &str
             let opi = idx[shard as usize];
             let op = &reg.ops[opi];
             let ins = inputs_for(op, seed, count);
+            // distinct input tuples with at least one operand that is not a special value
+            let mut uniq: Vec<[u64; 3]> = ins
+                .iter()
+                .filter(|t| (0..op.arity()).any(|j| !special(op.ins[j], t[j])))
+                .cloned()
+                .collect();
+            uniq.sort_unstable();
+            uniq.dedup();
             let mut r = OpResult {
                 name: op.name.clone(),
                 n: ins.len() as u64,
+                distinct_nontrivial: uniq.len() as u64,
                 digests: Vec::new(),
                 panic_count: 0,
                 panics: Vec::new(),
@@ -186,6 +212,7 @@ pub fn run(reg: &Registry, seed: u64, count: u64, threads: usize, out_path: &str
                 &r.name,
                 J::obj()
                     .with("n", J::u(r.n))
+                    .with("distinct_nontrivial", J::u(r.distinct_nontrivial))
                     .with("digests", J::arr(r.digests.iter().map(|&d| J::hex(d))))
                     .with("panic_count", J::u(r.panic_count))
                     .with(
